@@ -426,6 +426,8 @@ const preludeText = `
 (declare-fun f64.leq (F64 F64) Bool)
 (declare-fun f64.gt (F64 F64) Bool)
 (declare-fun f64.geq (F64 F64) Bool)
+; division is kept abstract as well: only avg() divides, code and specification divide the same operands
+(declare-fun f64.div (F64 F64) F64)
 (declare-fun gs.len (Str) Int)
 (declare-fun gs.at (Str Int) (_ BitVec 8))
 (declare-fun gs.sub (Str Int Int) Str)
